@@ -1,4 +1,5 @@
 import LtVerif.Model.H2Flow
+import LtVerif.Model.H2
 namespace Driver
 open LtVerif
 
@@ -41,8 +42,70 @@ def fcEvents : List String → FcConn → List String → List String
       fcEvents rest c' (fcSummary c' :: acc)
     | _ => fcEvents rest c ("bad-ev" :: acc)
 
+def natArg (args : List String) (i : Nat) : Nat := ((args.getD i "0").toNat?).getD 0
+def intArg (args : List String) (i : Nat) : Int := ((args.getD i "0").toInt?).getD 0
+
+/-- frame tokens (fields separated by ':'):
+    S:<ack01>:<sid>:<k=v,..|->:<junk>     P:<ack01>:<sid>:<len>     W:<sid>:<len>:<inc>
+    R:<sid>:<len>:<code>   Y:<sid>:<len>:<dep>   G:<sid>:<len>:<code>
+    D:<sid>:<len>:<pad|->:<es01>
+    H:<sid>:<r<status>,<body>,<reqLen>,<incr01>|x>:<es01>:<dep|->:<padBad01>:<contBad01>
+    C:<sid>   U:<type>   X:<sid> (PUSH_PROMISE)   O (oversize) -/
+def parseFrame (t : String) : Option FrameIn :=
+  let a := t.splitOn ":"
+  match a.head? with
+  | some "S" =>
+    let ps := if a.getD 3 "-" = "-" then [] else
+      ((a.getD 3 "").splitOn ",").filterMap fun kv =>
+        match kv.splitOn "=" with
+        | [k, v] => match k.toNat?, v.toNat? with | some k, some v => some (k, v) | _, _ => none
+        | _ => none
+    some (.settings (natArg a 1 == 1) (natArg a 2) ps (natArg a 4))
+  | some "P" => some (.ping (natArg a 1 == 1) (natArg a 2) (natArg a 3))
+  | some "W" => some (.windowUpdate (natArg a 1) (natArg a 2) (natArg a 3))
+  | some "R" => some (.rstStream (natArg a 1) (natArg a 2) (natArg a 3))
+  | some "Y" => some (.priority (natArg a 1) (natArg a 2) (natArg a 3))
+  | some "G" => some (.goaway (natArg a 1) (natArg a 2) (natArg a 3))
+  | some "D" => some (.data (natArg a 1) (natArg a 2)
+                        (if a.getD 3 "-" = "-" then none else some (natArg a 3)) (natArg a 4 == 1))
+  | some "H" =>
+    let k := a.getD 2 "x"
+    let kind : HdrKind :=
+      if k = "x" then .hpackBad else
+        let f := (k.drop 1).toString.splitOn ","
+        .request (natArg f 0) (natArg f 1) (intArg f 2) (natArg f 3 == 1)
+    some (.headers (natArg a 1) kind (natArg a 3 == 1)
+            (if a.getD 4 "-" = "-" then none else some (natArg a 4)) (natArg a 5 == 1) (natArg a 6 == 1))
+  | some "C" => some (.continuation (natArg a 1))
+  | some "U" => some (.unknown (natArg a 1))
+  | some "X" => some (.pushPromise (natArg a 1))
+  | some "O" => some .oversize
+  | _ => none
+
+def outStr : Out → String
+  | .settingsAck => "SA"
+  | .pingAck => "PA"
+  | .goaway last code => s!"G{last},{code}"
+  | .rst sid code => s!"R{sid},{code}"
+  | .windowUpdate sid inc => s!"W{sid},{inc}"
+  | .headers sid status es => s!"H{sid},{status},{if es then 1 else 0}"
+  | .data sid len es => s!"D{sid},{len},{if es then 1 else 0}"
+
+/-- "h2 <frames..> q <frames..> q": after every q the frames emitted in that step -/
+def h2Events : List String → H2Conn → List FrameIn → List String → List String
+  | [], _, _, acc => acc.reverse
+  | t :: rest, c, batch, acc =>
+    if t = "q" then
+      let (c', o) := h2Step c batch.reverse
+      h2Events rest c' [] ((if o.isEmpty then "-" else String.intercalate " " (o.map outStr)) :: acc)
+    else
+      match parseFrame t with
+      | some f => h2Events rest c (f :: batch) acc
+      | none => h2Events rest c batch ("bad-frame" :: acc)
+
 def h2Line : List String → String
   | "fc" :: evs => String.intercalate " / " (fcEvents evs FcConn.init [])
+  | "h2" :: evs => String.intercalate " / " (h2Events evs {} [] [])
   | _ => "bad-op"
 
 end Driver
